@@ -1,28 +1,211 @@
+import Girc.Proofs.InvHandlersAttr
 import Girc.Proofs.InvDelete
 import Girc.Proofs.InvRename
 import Girc.Proofs.InvJoin
 namespace Girc.Proofs.InvHandlers
 open Girc Girc.Model Girc.Spec
+open Girc.Proofs.InvBase
+
+/-- `handleSASL` leaves the tracked state alone (it only counts the mechanism calls). -/
+theorem handleSASL_st (cfg : Cfg) (cs : CState) (e : Event) : (handleSASL cfg cs e).1.st = cs.st := by
+  unfold handleSASL
+  split
+  · rfl
+  · split
+    · rfl
+    · extract_lets auth cs1
+      split <;> rfl
+
+/-- "returns without a fault, in a consistent state" for the dispatcher's result type. -/
+def GoodC (m : M (CState × List Out)) : Prop := ∃ cs' outs, m = .ok (cs', outs) ∧ Inv cs'.st
+
+theorem goodC_ite {c : Prop} [Decidable c] {a b : M (CState × List Out)}
+    (ha : c → GoodC a) (hb : ¬c → GoodC b) : GoodC (if c then a else b) := by
+  by_cases hc : c
+  · rw [if_pos hc]; exact ha hc
+  · rw [if_neg hc]; exact hb hc
+
+theorem handleCommand_good (cfg : Cfg) (cs : CState) (e : Event) (h : Inv cs.st) :
+    GoodC (handleCommand cfg cs e) := by
+  unfold handleCommand
+  extract_lets st ret c
+  have h' : Inv st := h
+  have hret : ∀ (s : St) (o : List Out), Inv s → GoodC (ret s o) :=
+    fun s o hs => ⟨_, _, rfl, hs⟩
+  have hbind : ∀ (m : M St), Good m → GoodC (m >>= fun x => ret x []) := by
+    intro m ⟨s, hm, hs⟩
+    rw [hm]
+    exact hret s [] hs
+  clear_value ret
+  refine goodC_ite (fun _ => hret _ _ h') fun _ => ?_
+  refine goodC_ite (fun _ => hret _ _ (handleConnect_inv st e h')) fun _ => ?_
+  refine goodC_ite (fun _ => hret _ _ h') fun _ => ?_
+  refine goodC_ite (fun _ => hret _ _ h') fun _ => ?_
+  refine goodC_ite (fun _ => ?_) fun _ => ?_
+  · obtain ⟨s, o, hj, hs⟩ := InvJoin.handleJOIN_inv cfg st e h'
+    rw [hj]
+    exact hret s o hs
+  refine goodC_ite (fun _ => hbind _ (handlePART_inv cfg st e h')) fun _ => ?_
+  refine goodC_ite (fun _ => hbind _ (handleKICK_inv cfg st e h')) fun _ => ?_
+  refine goodC_ite (fun _ => hbind _ (handleQUIT_inv cfg st e h')) fun _ => ?_
+  refine goodC_ite (fun _ => hbind _ (handleNICK_inv st e h')) fun _ => ?_
+  refine goodC_ite (fun _ => hbind _ (InvJoin.handleNAMES_inv st e h')) fun _ => ?_
+  refine goodC_ite (fun _ => hbind _ (handleMODE_inv st e h')) fun _ => ?_
+  refine goodC_ite (fun _ => hbind _ (handleWHO_inv st e h')) fun _ => ?_
+  refine goodC_ite (fun _ => hbind _ (handleTOPIC_inv st e h')) fun _ => ?_
+  refine goodC_ite (fun _ => hbind _ (handleMYINFO_inv st e h')) fun _ => ?_
+  refine goodC_ite (fun _ => hret _ _ (handleISUPPORT_inv st e h')) fun _ => ?_
+  refine goodC_ite (fun _ => hret _ _ (handleMOTD_inv st e h')) fun _ => ?_
+  refine goodC_ite (fun _ => ?_) fun _ => ?_
+  · have hc := handleCAP_inv cfg st e h'
+    rcases hr : handleCAP cfg st e with ⟨s, o⟩
+    rw [hr] at hc
+    exact hret s o hc
+  refine goodC_ite (fun _ => hret _ _ (handleCHGHOST_inv st e h')) fun _ => ?_
+  refine goodC_ite (fun _ => hret _ _ (handleAWAY_inv st e h')) fun _ => ?_
+  refine goodC_ite (fun _ => hret _ _ (handleACCOUNT_inv st e h')) fun _ => ?_
+  refine goodC_ite (fun _ => ?_) fun _ => ?_
+  · have hc := handleSASL_st cfg cs e
+    rcases hr : handleSASL cfg cs e with ⟨cs', o⟩
+    rw [hr] at hc
+    refine ⟨cs', o, rfl, ?_⟩
+    have hc' : cs'.st = cs.st := hc
+    rw [hc']
+    exact h
+  exact goodC_ite (fun _ => hret _ _ h') fun _ => hret _ _ h'
 
 /-- Every built-in handler, on EVERY event (any command, any number of parameters, with or without
     source or tags), returns without a fault and preserves the invariant. -/
 theorem handleCommand_inv (cfg : Cfg) (cs : CState) (e : Event) (h : Inv cs.st) :
-    ∃ cs' outs, handleCommand cfg cs e = .ok (cs', outs) ∧ Inv cs'.st := by
-  sorry
+    ∃ cs' outs, handleCommand cfg cs e = .ok (cs', outs) ∧ Inv cs'.st :=
+  handleCommand_good cfg cs e h
 
 theorem handleEvent_inv (cfg : Cfg) (cs : CState) (e : Event) (time idle : Bytes) (h : Inv cs.st) :
     ∃ cs' outs, handleEvent cfg cs e time idle = .ok (cs', outs) ∧ Inv cs'.st := by
-  sorry
+  unfold handleEvent
+  extract_lets echo cs1 ctcp jp
+  have h1 : Inv cs1.st := by
+    unfold cs1
+    split
+    · exact h
+    · exact handleTags_inv _ _ h
+  have hjp : ∀ x : CState × List Out, Inv x.1.st → ∃ cs' outs, jp x = .ok (cs', outs) ∧ Inv cs'.st :=
+    fun ⟨_, _⟩ hx => ⟨_, _, rfl, hx⟩
+  clear_value jp cs1
+  split
+  · exact hjp _ h1
+  · obtain ⟨cs', outs, hc, hi⟩ := handleCommand_inv cfg cs1 e h1
+    rw [hc]
+    exact hjp _ hi
+
+/-! ### whole histories -/
+
+theorem applyOuts_cs : ∀ (outs : List Out) (r : Run), (applyOuts r outs).1.cs = r.cs
+  | [], r => rfl
+  | o :: rest, r => by
+    cases o with
+    | write e =>
+      have ih := applyOuts_cs rest { r with written := r.written ++ [e] }
+      simp only [applyOuts]
+      exact ih
+    | send e =>
+      have ih := applyOuts_cs rest { r with written := r.written ++ [e] }
+      simp only [applyOuts]
+      exact ih
+    | inject e =>
+      have ih := applyOuts_cs rest r
+      simp only [applyOuts]
+      exact ih
+    | close =>
+      have ih := applyOuts_cs rest r
+      simp only [applyOuts]
+      exact ih
+
+theorem stepEvent_inv (cfg : Cfg) (r : Run) (e : Event) (time idle : Bytes) (h : Inv r.cs.st) :
+    ∃ r' inj, stepEvent cfg r e time idle = .ok (r', inj) ∧ Inv r'.cs.st := by
+  unfold stepEvent
+  obtain ⟨cs', outs, hc, hi⟩ := handleEvent_inv cfg r.cs e time idle h
+  rw [hc, ok_bind]
+  dsimp only
+  refine ⟨_, _, rfl, ?_⟩
+  have ha : (applyOuts { r with cs := cs' } outs).1.cs = cs' := applyOuts_cs outs _
+  split
+  · show Inv (applyOuts { r with cs := cs' } outs).1.cs.st
+    rw [ha]; exact hi
+  · rw [ha]; exact hi
+
+theorem stepAll_inv (cfg : Cfg) : ∀ (fuel : Nat) (r : Run) (queue : List Event), Inv r.cs.st →
+    ∃ r', stepAll cfg fuel r queue = .ok r' ∧ Inv r'.cs.st
+  | 0, r, [], h => ⟨r, rfl, h⟩
+  | 0, r, _ :: _, h => ⟨r, rfl, h⟩
+  | _ + 1, r, [], h => ⟨r, rfl, h⟩
+  | fuel + 1, r, e :: queue, h => by
+    unfold stepAll
+    split
+    · exact ⟨r, rfl, h⟩
+    · obtain ⟨r1, inj, hs, hi⟩ := stepEvent_inv cfg r e [] [] h
+      rw [hs, ok_bind]
+      exact stepAll_inv cfg fuel r1 (queue ++ inj) hi
+
+theorem stepLine_inv (cfg : Cfg) (r : Run) (line : Bytes) (h : Inv r.cs.st) :
+    ∃ r', stepLine cfg r line = .ok r' ∧ Inv r'.cs.st := by
+  unfold stepLine
+  split
+  · exact ⟨r, rfl, h⟩
+  · split
+    · exact ⟨_, rfl, h⟩
+    · exact stepAll_inv cfg 8 r _ h
 
 /-- Lifted over whole histories of received lines (parseable or not), including the events the
     client injects into its own queue. -/
 theorem runLines_inv (cfg : Cfg) (r : Run) (lines : List Bytes) (h : Inv r.cs.st) :
     ∃ r', runLines cfg r lines = .ok r' ∧ Inv r'.cs.st := by
-  sorry
+  unfold runLines
+  induction lines generalizing r with
+  | nil => exact ⟨r, rfl, h⟩
+  | cons line rest ih =>
+    obtain ⟨r1, h1, hi⟩ := stepLine_inv cfg r line h
+    rw [List.foldlM_cons, h1, ok_bind]
+    exact ih r1 hi
+
+/-! ### PING -/
+
+theorem decodeCTCP_none (e : Event) (h1 : e.command ≠ PRIVMSG) (h2 : e.command ≠ NOTICE) :
+    decodeCTCP e = none := by
+  unfold decodeCTCP
+  split
+  · split
+    · rfl
+    · split
+      · rfl
+      · next hne =>
+        exfalso
+        apply hne
+        simp [h1, h2]
+  · rfl
 
 /-- In every consistent state a PING is answered by exactly one unthrottled PONG with the same token. -/
 theorem ping_answered (cfg : Cfg) (cs : CState) (e : Event) (time idle : Bytes) (hp : e.command = cPING) :
     ∃ cs', handleEvent cfg cs e time idle = .ok (cs', [Out.write { command := cPONG, params := [e.last] }]) := by
-  sorry
+  have hP : e.command ≠ PRIVMSG := by rw [hp]; decide
+  have hN : e.command ≠ NOTICE := by rw [hp]; decide
+  have hcmd : ∀ cs1 : CState, handleCommand cfg cs1 e =
+      .ok ({ cs1 with st := cs1.st }, [Out.write { command := cPONG, params := [e.last] }]) := by
+    intro cs1
+    unfold handleCommand
+    extract_lets st ret c
+    rw [if_pos hp]
+  unfold handleEvent
+  extract_lets echo cs1 ctcp jp
+  have hecho : echo = false := by
+    unfold echo isEcho
+    simp [hP, hN]
+  have hctcp : ctcp = [] := by
+    unfold ctcp
+    rw [decodeCTCP_none e hP hN]
+  rw [hecho, hcmd cs1]
+  unfold jp
+  rw [hctcp]
+  exact ⟨_, rfl⟩
 
 end Girc.Proofs.InvHandlers
